@@ -81,6 +81,7 @@ func cmdVerify(args []string) {
 	fs := flag.NewFlagSet("verify", flag.ExitOnError)
 	secs := fs.Int("t", 10, "solver timeout (s)")
 	verbose := fs.Bool("v", false, "print all obligations")
+	maxShow := fs.Int("n", 8, "max distinct failing obligations shown per function")
 	keep := fs.String("work", filepath.Join(verifDir, ".work", "verify"), "work dir")
 	fs.Parse(args)
 	t0 := time.Now()
@@ -129,24 +130,36 @@ func cmdVerify(args []string) {
 		}
 		solveAll(res.Obls, filepath.Join(*keep, safeName(k)), *secs, 16)
 		ok, fail := 0, 0
+		seenFail := map[string]bool{}
+		shown := 0
 		for _, o := range res.Obls {
 			good := o.Result.Status == "unsat"
 			if o.Cover {
-				good = o.Result.Status == "sat"
+				good = o.Result.Status != "unsat"
 			}
 			if good {
 				ok++
 			} else {
 				fail++
 			}
-			if !good || *verbose {
-				fmt.Printf("  %-8s %-70s %s %.2fs %s %s  {%s}\n", o.Result.Status, o.ID, o.Result.Solver, o.Result.TimeS, o.Path, o.Pos, trunc(o.Text, 80))
+			if *verbose || (!good && !seenFail[o.ID]) {
+				first := !seenFail[o.ID]
+				seenFail[o.ID] = true
+				if !*verbose && strings.Contains(o.ID, "/frame.") && seenFail[k+"/frame.unknown-callee"] && !strings.HasSuffix(o.ID, "unknown-callee") {
+					continue
+				}
+				if *verbose || (first && shown < *maxShow) {
+					shown++
+					fmt.Printf("  %-8s %-66s %s %.2fs %s %s  {%s}\n", o.Result.Status, strings.TrimPrefix(o.ID, k+"/"), o.Result.Solver, o.Result.TimeS, o.Path, o.Pos, trunc(o.Text, 60))
+				}
 			}
 		}
 		bad += fail
-		fmt.Printf("%s: %d obligations, %d ok, %d failed, %d paths, %.1fs\n", k, len(res.Obls), ok, fail, res.Paths, time.Since(t1).Seconds())
-		for _, n := range res.Notes {
-			fmt.Printf("  note: %s\n", n)
+		fmt.Printf("%s: %d obligations, %d ok, %d failed (%d distinct), %d paths, %.1fs\n", k, len(res.Obls), ok, fail, len(seenFail), res.Paths, time.Since(t1).Seconds())
+		for i, n := range dedupe(res.Notes) {
+			if i < 4 || *verbose {
+				fmt.Printf("  note: %s\n", n)
+			}
 		}
 	}
 	if bad > 0 {
